@@ -90,9 +90,10 @@ def explained_by(prop, sig):
     for f in load_findings():
         if f.get('property') != prop or f.get('status') != 'open':
             continue
-        m = f.get('match', {})
-        if all(k in sig and _match_one(p, sig[k]) for k, p in m.items()):
-            return f['id']
+        # `match` = one pattern; `match_any` = several patterns of one mechanism (its observable forms)
+        for m in (f.get('match_any') or [f.get('match', {})]):
+            if all(k in sig and _match_one(p, sig[k]) for k, p in m.items()):
+                return f['id']
     return None
 
 
